@@ -126,7 +126,7 @@ pub fn run_c15(out: &mut Out, rng: &mut Rng, tier: Tier) -> String {
         out.nontrivial();
     }
     // sizes beyond any plausible block / threshold size (not multiples of 1024 or 4096)
-    for (nr, nc) in [(40usize, 50usize), (1, 4099), (97, 101), (3, 1366)] {
+    for (nr, nc) in [(40usize, 50usize), (1, 4099), (97, 101), (3, 1366), (257, 300)] {
         for order in ORDERS {
             out.case(&format!("iter large shape={nr}x{nc}{}", ord_ch(order)));
             out.count("shape-class:large");
